@@ -51,13 +51,14 @@ Lemma pizzetti_any_q a f GM w : a <> 0 -> f <> 1 -> GM <> 0 -> es a f <> 0 -> gq
 Proof.
   intros Ha Hf HG Hx Hq. unfold C16_ge_R, C16_gp_R; cbv zeta.
   assert (Hf' : 1 - f <> 0) by (intro; apply Hf; lra).
+  assert (Hb : a*(1-f) <> 0) by (apply Rmult_integral_contrapositive_currified; assumption).
   match goal with |- context [sqrt ?e] =>
-    replace e with (ges2 a f) by (unfold ges2; field; split; assumption) end.
+    replace e with (ges2 a f) by (unfold ges2; field; repeat split; first [assumption | let HH := fresh in intro HH; apply Hb; lra]) end.
   fold (es a f). set (x := es a f) in *.
   repeat (destr_dec; [exfalso; auto|]).
   eexists _, _. split; [reflexivity|]. split; [reflexivity|].
   revert Hq. unfold gq0. generalize (atan x). intros T Hq.
-  field. repeat split; try assumption.
+  field. repeat split; try assumption; try (let H0 := fresh in intro H0; apply Hb; lra).
   intro HH. apply Hq.
   assert (HT : T = 3*x/(x*x+3)).
   { assert (0 < x*x+3) by nra. apply Rmult_eq_reg_r with (x*x+3); [|lra].
@@ -77,4 +78,16 @@ Proof.
   unfold C16_g0_R; cbv zeta.
   assert (E : sin (- lat * (1/180 * PI)) ^ 2 = sin (lat * (1/180 * PI)) ^ 2) by (rewrite <- Ropp_mult_distr_l, sin_neg; ring).
   rewrite !E. reflexivity.
+Qed.
+
+(* ---- both public classes, positional and keyword: the constructor stores exactly what it is given (no branch on a
+   zero flattening or rotation rate), and the WGS subclass computes the same terms as ReferenceEllipsoid ---------- *)
+Lemma both_classes a f GM w lat h :
+  C16_echo_R a f GM w = Val [a; f; GM; w; a*(1-f)] /\ C16_echo_kw_R a f GM w = Val [a; f; GM; w; a*(1-f)] /\
+  C16_wgs_echo_R a f GM w = Val [a; f; GM; w; a*(1-f)] /\ C16_wgs_echo_kw_R a f GM w = Val [a; f; GM; w; a*(1-f)] /\
+  C16_wgs_ge_R a f GM w = C16_ge_R a f GM w /\ C16_wgs_gp_R a f GM w = C16_gp_R a f GM w /\
+  C16_wgs_g_R a f GM w lat h = C16_g_R a f GM w lat h /\ C16_wgs_U0_J2_R a f GM w = C16_ref_U0_J2_R a f GM w.
+Proof.
+  repeat split; try reflexivity;
+  (match goal with |- ?F _ _ _ _ = _ => unfold F end; cbv zeta; val_eq; ring).
 Qed.
